@@ -134,6 +134,8 @@ def ev(t, L, R, o, casts=None):
         if last == "partial_cmp" and len(args) == 2:
             r = rel(args[0], args[1], L, R, o, casts)
             return "none" if r == "Unordered" else ("some", r)
+        if last == "total_cmp":
+            raise Unknown("f64::total_cmp is the IEEE total order (-0.0 < 0.0, NaN ordered), not the numeric ordering")
         if last in ("is_lt", "is_le", "is_gt", "is_ge", "is_eq", "is_ne") and len(args) == 1:
             v = ev(args[0], L, R, o, casts)
             return OPS[{"is_lt": "Lt", "is_le": "Le", "is_gt": "Gt", "is_ge": "Ge", "is_eq": "Eq", "is_ne": "Ne"}[last]](v)
